@@ -1,0 +1,34 @@
+//go:build verif
+
+package fstxn
+
+// Verification hooks (see /verif/DESIGN.md, Section 6): every lock
+// acquisition/release and every commit/abort of a file-system transaction is
+// reported to an observer installed by the verification harness.
+
+// VerifObserver is called synchronously by the goroutine running the
+// transaction; it may block or yield (the harness uses this to force
+// schedules).
+var VerifObserver func(kind string, op *FsTxn, arg uint64)
+
+func verifEvent(kind string, op *FsTxn, arg uint64) {
+	if VerifObserver != nil {
+		VerifObserver(kind, op, arg)
+	}
+}
+
+func verifBool(b bool) uint64 {
+	if b {
+		return 1
+	}
+	return 0
+}
+
+// VerifOwned returns the inode numbers whose locks the transaction holds.
+func (op *FsTxn) VerifOwned() []uint64 {
+	var r []uint64
+	for i := range op.inodes {
+		r = append(r, uint64(i))
+	}
+	return r
+}
